@@ -455,6 +455,12 @@ def locateReg : List (List Reg) → Nat → Nat → Nat × Nat × Nat
   | [], k, gi => (gi, k, 0)
   | g :: tl, k, gi => if k < g.length then (gi, k, g.length) else locateReg tl (k - g.length) (gi + 1)
 
+/-- the class of seeded change C09-8: the new key is a strict segment-wise prefix of a key stored earlier (its last
+node exists already as a pure intermediate node), or extends one. -/
+def prefixClass (stored : List (List String)) (pats : List String) : List String :=
+  (if stored.any (fun x => pats.length < x.length && x.take pats.length == pats) then ["new-route-is-strict-prefix-of-an-earlier-route"] else []) ++
+  (if stored.any (fun x => x.length < pats.length && pats.take x.length == x && x != [""]) then ["new-route-extends-an-earlier-route"] else [])
+
 def parseReg (s : String) : Option Reg :=
   match s.splitOn "," with
   | [m, p, h] => (parseItem h).map fun item => (m, p, item)
@@ -495,6 +501,8 @@ def runSection (r : Report) (s : Section) : Report := Id.run do
         | .ok pr' => st := { st with pr := pr' }
         | .error _ => pure ()
         if st.served then r := r.addCover "route-after-requests"
+        if sv = .ok ∧ rooted p then
+          for c in prefixClass ((st.tbl.filter (·.method == m)).map (·.pats)) (cleanToks p) do r := r.addCover c
         st := { st with tbl := tbl' }
         if !(Spec.oneVarPerPosition st.tbl) then r := r.addCover "table-outside-hypothesis"
       | _, _, _ => r := r.mismatch s.idx l.idx "bad-op" (joinSp l.op)
@@ -610,6 +618,10 @@ def runSection (r : Report) (s : Section) : Report := Id.run do
         if fmtStart (fmtSpecReg sv) ≠ implV then
           r := r.violation s.idx l.idx s!"Server.Start: property demands [{if sv = .ok then "no rejection: the listener is reached" else "the registration is rejected: panic with " ++ fmtSpecReg sv}] implementation did [{implV}]"
       if !(Spec.oneVarPerPosition st.tbl) then r := r.addCover "table-outside-hypothesis"
+      for i in List.range st.tbl.length do
+        match st.tbl[i]? with
+        | some x => for c in prefixClass (((st.tbl.take i).filter (·.method == x.method)).map (·.pats)) x.pats do r := r.addCover ("bind-" ++ c)
+        | none => pure ()
     | "req" :: args =>
       match arg "m=" args, arg "p=" args with
       | some m, some p =>
@@ -653,6 +665,8 @@ def runSection (r : Report) (s : Section) : Report := Id.run do
         match res with
         | .ok t => st := { st with tree := t }
         | .error _ => pure ()
+        if sv = "ok" then
+          for c in prefixClass (st.ttbl.map (·.pats)) (Spec.rawKey p) do r := r.addCover ("tadd-" ++ c)
         match sv, item with
         | "ok", some h => st := { st with ttbl := st.ttbl ++ [{ method := "", pats := Spec.rawKey p, h := h }] }
         | _, _ => pure ()
